@@ -862,3 +862,92 @@ M2('c04-k3-accept-module-constant-blank', 'C04', 'R8', [
      'old': "            return self.env['HTTP_ACCEPT'] or '*/*'\n        except KeyError:\n            return '*/*'\n",
      'new': "            return self.env['HTTP_ACCEPT'] or _ACCEPT_ANYTHING\n        except KeyError:\n            return _ACCEPT_ANYTHING\n"},
     {'file': 'falcon/request.py', 'old': "\nclass Request:\n", 'new': "\n_ACCEPT_ANYTHING = ''\n\n\nclass Request:\n"}])
+
+# ---- fourth preserving wave (k4-c04-2): the whole negotiation block of default_serialize_error extracted into a module-level
+# helper that answers with early returns (`return preferred` / `return MEDIA_JSON` / `return MEDIA_XML` / `return None`).
+# R4 (f) reads each `return <e>` of the helper like `preferred = <e>` of the inlined block, per CFG path.
+# "refactoring + break": that helper PLUS a shortcut that selects a type without / against the negotiation.
+_K4_BLOCK = """    predefined = (
+        [MEDIA_JSON, 'text/xml', MEDIA_XML]
+        if options.xml_error_serialization
+        else [MEDIA_JSON]
+    )
+    media_handlers = [mt for mt in options.media_handlers if mt not in predefined]
+    # NOTE(caselit,vytas): Add the registered handlers after the predefined
+    #   ones. This ensures that in the case of an equal match, the first one
+    #   (JSON) is selected and that the q parameter is taken into consideration
+    #   when selecting the media handler.
+    preferred = req.client_prefers(predefined + media_handlers)
+
+    if preferred is None:
+        # NOTE(kgriffs): See if the client expects a custom media
+        # type based on something Falcon supports. Returning something
+        # is probably better than nothing, but if that is not
+        # desired, this behavior can be customized by adding a
+        # custom HTTPError serializer for the custom type.
+        accept = req.accept.lower()
+
+        # NOTE(kgriffs): Simple heuristic, but it's fast, and
+        # should be sufficiently accurate for our purposes. Does
+        # not take into account weights if both types are
+        # acceptable (simply chooses JSON). If it turns out we
+        # need to be more sophisticated, we can always change it
+        # later (YAGNI).
+        if '+json' in accept:
+            preferred = MEDIA_JSON
+        elif '+xml' in accept:
+            # NOTE(caselit): Ignore xml_error_serialization when
+            #   checking if the media should be XML. This gives a chance to
+            #   an XML media handler, if any, to be used.
+            preferred = MEDIA_XML
+"""
+_K4_SER = 'def default_serialize_error(req: Request, resp: Response, exception: HTTPError) -> None:\n'
+_K4_HEAD = """def _negotiate_error_media_type(req, options):
+    predefined = (
+        [MEDIA_JSON, 'text/xml', MEDIA_XML]
+        if options.xml_error_serialization
+        else [MEDIA_JSON]
+    )
+    media_handlers = [mt for mt in options.media_handlers if mt not in predefined]
+"""
+_K4_NEG = """    preferred = req.client_prefers(predefined + media_handlers)
+
+"""
+_K4_FOUND = """    if preferred is not None:
+        return preferred
+
+"""
+_K4_TAIL = """    accept = req.accept.lower()
+
+    if '+json' in accept:
+        return MEDIA_JSON
+
+    if '+xml' in accept:
+        return MEDIA_XML
+
+    return None
+
+
+"""
+
+
+def _k4_helper(mid, shortcut='', found=_K4_FOUND):
+    M2(mid, 'C04', 'R4', [
+        {'file': 'falcon/app_helpers.py', 'old': _K4_BLOCK, 'new': '    preferred = _negotiate_error_media_type(req, options)\n'},
+        {'file': 'falcon/app_helpers.py', 'old': _K4_SER, 'new': _K4_HEAD + shortcut + _K4_NEG + found + _K4_TAIL + _K4_SER}])
+
+
+_k4_helper('c04-k4-negotiation-helper-json-prefix-shortcut',
+           "    accept = req.accept\n    if accept == '*/*' or accept.startswith(MEDIA_JSON):\n        return MEDIA_JSON\n\n")
+_k4_helper('c04-k4-negotiation-helper-json-substring-skips-client-prefers',
+           "    if 'json' in req.accept.lower():\n        return MEDIA_JSON\n\n")
+_k4_helper('c04-k4-negotiation-helper-xml-text-skips-client-prefers',
+           "    if req.accept in (MEDIA_XML, 'text/xml'):\n        return MEDIA_XML\n\n")
+_k4_helper('c04-k4-negotiation-helper-catch-all-returns-xml',
+           "    if req.accept == '*/*':\n        return MEDIA_XML\n\n")
+_k4_helper('c04-k4-negotiation-helper-suffix-heuristic-overrides-answer',
+           found="    if preferred is not None and preferred == MEDIA_JSON:\n        return preferred\n\n")
+M2('c04-k4-negotiation-helper-handlers-offered-first', 'C04', 'R4', [
+    {'file': 'falcon/app_helpers.py', 'old': _K4_BLOCK, 'new': '    preferred = _negotiate_error_media_type(req, options)\n'},
+    {'file': 'falcon/app_helpers.py', 'old': _K4_SER,
+     'new': _K4_HEAD + _K4_NEG.replace('predefined + media_handlers', 'media_handlers + predefined') + _K4_FOUND + _K4_TAIL + _K4_SER}])
